@@ -627,6 +627,9 @@ def exec_loop_invariant(eng, n, st: State, key, spec):
                 out.append((s, it))
                 continue
             if not isinstance(it, VSeq):
+                hk = eng.hooks.get("iter_to_seq")
+                it = hk(eng, s, it) if hk is not None else None
+            if not isinstance(it, VSeq):
                 raise Unsupported("invariant-based for loop needs a symbolic sequence iterable")
             s.env.f[idx] = VInt(0)
             s.env.f["__seq_" + idx] = it
